@@ -169,7 +169,7 @@ def session_scenario(rng, purpose="rewind", allow_spend=True):
     toks = g.toks
     scn["script"] = hexs(S.asm(toks))
     if fam not in ("bigstack",):
-        n = rng.weighted([(5, 0), (3, rng.range(1, 3)), (1, rng.range(4, 6))])
+        n = rng.weighted([(10, 0), (6, rng.range(1, 3)), (2, rng.range(4, 6)), (2, rng.range(30, 40)), (1, rng.range(41, 130))])
         scn["stack"] = [hexs(rng.bytes(rng.range(5, 33))) if rng.chance(40) else hexs(S.scriptnum(rng.range(17, 5000))) for _ in range(n)]
     if flags_off:
         scn["opts"].append("--modify-flags=" + ",".join("-" + f for f in flags_off))
